@@ -132,6 +132,10 @@ class Ctx:
         self.counter = {}
         self.ghost = {}
         self.assumptions_used = set()
+        # auxiliary attributes (ClassSpec.aux_fields): {object id: {attribute: bounded?}}, and the unbounded ones this
+        # path has read so far -- a refutation that follows such a read is tagged with them
+        self.aux_fields_of = {}
+        self.aux_reads = set()
         self.dropped = set()
         self.obligations = []  # (name, verdict, info)
         self.notes = []
@@ -320,7 +324,8 @@ class Ctx:
             if r == z3.sat:
                 m = self.solver.model()
                 self.obligations.append(
-                    (name, "refuted", {"backend": "z3", "t": dt, "model": m, "goal": f, **(info or {})})
+                    (name, "refuted", {"backend": "z3", "t": dt, "model": m, "goal": f,
+                                       **({"aux_reads": sorted(self.aux_reads)} if self.aux_reads else {}), **(info or {})})
                 )
                 return "refuted"
             # unknown: second opinion from cvc5 on the SMT-LIB text
